@@ -183,23 +183,26 @@ Fixpoint plookup (d : N) (k : bytes) (p : ptree) : pres :=
    subtree was merged at the root and no further fetch succeeds: doGet +
    cache.derefNodePtr (cache.go:333-383).  Differences from [plookup]:
    a hash-only pointer whose hash is the empty hash is a nil node (:356);
-   an internal node whose LeafNode pointer is hash-only is re-fetched as a
-   whole (:343-349), whatever the key. *)
-Fixpoint plookup_go (H : bytes -> bytes) (d : N) (k : bytes) (p : ptree) : pres :=
+   an internal node that is already in memory when it is dereferenced and whose
+   LeafNode pointer is hash-only is re-fetched as a whole (:343-349), whatever
+   the key.  The node that the fetch itself just delivered ([fresh]: the root
+   of the merged subtree) is returned without that test (:372-378). *)
+Definition is_phash (p : ptree) : bool := match p with PHash _ => true | _ => false end.
+
+Fixpoint plookup_go (H : bytes -> bytes) (fresh : bool) (d : N) (k : bytes) (p : ptree) : pres :=
   match p with
   | PNil => Absent
   | PHash h => if bytes_eqb h (H []) then Absent else Unknown
   | PLeaf k' v' => if bytes_eqb k' k then Found v' else Absent
   | PNode bl _ lf l r =>
-      match lf with
-      | PHash _ => Unknown
-      | _ =>
-          let d' := d + bl in
-          let kl := N.of_nat (length (bits_of k)) in
-          if kl =? d' then plookup_go H d' k lf
-          else if kl <? d' then Absent
-          else if bit (bits_of k) (N.to_nat d') then plookup_go H d' k r else plookup_go H d' k l
-      end
+      if negb fresh && is_phash lf then Unknown
+      else
+        let d' := d + bl in
+        let kl := N.of_nat (length (bits_of k)) in
+        if kl =? d' then plookup_go H false d' k lf
+        else if kl <? d' then Absent
+        else if bit (bits_of k) (N.to_nat d') then plookup_go H false d' k r
+        else plookup_go H false d' k l
   end.
 
 (* ------------------------------------------------------------------ *)
